@@ -252,6 +252,11 @@ def good_text():
 ARG_CLASSES = {
     "ph<0": (["--ff=AMBER", "--with-ph=-0.5"], None),
     "ph>14": (["--ff=AMBER", "--with-ph=14.5"], None),
+    # values the option parser accepts as floats that are no pH at all
+    "ph=nan": (["--ff=AMBER", "--with-ph=nan"], None),
+    "ph=inf": (["--ff=AMBER", "--with-ph=inf"], None),
+    "ph=nan+propka": (["--ff=AMBER", "--with-ph=nan",
+                       "--titration-state-method=propka"], None),
     "neutraln+AMBER": (["--ff=AMBER", "--neutraln"], None),
     "neutralc+CHARMM": (["--ff=CHARMM", "--neutralc"], None),
     "neutraln+TYL06": (["--ff=TYL06", "--neutraln"], None),
